@@ -249,6 +249,27 @@ pub enum Note {
     Undecodable(String),
 }
 
+/// How a map key travels: the keys of the external writers (>= 100) are text keys with a character outside ASCII,
+/// the consumers' own keys are integers.
+pub fn wire_key(k: i32) -> String {
+    if k >= 100 {
+        format!("\"k\u{e9}\u{20ac}{k}\"")
+    } else {
+        k.to_string()
+    }
+}
+
+fn key_of_value(v: &swimos_model::Value) -> Option<i32> {
+    match v {
+        swimos_model::Value::Int32Value(k) => Some(*k),
+        swimos_model::Value::Int64Value(k) => i32::try_from(*k).ok(),
+        swimos_model::Value::UInt32Value(k) => i32::try_from(*k).ok(),
+        swimos_model::Value::UInt64Value(k) => i32::try_from(*k).ok(),
+        swimos_model::Value::Text(t) => t.as_str().strip_prefix("k\u{e9}\u{20ac}").and_then(|r| r.parse::<i32>().ok()).filter(|k| *k >= 100),
+        _ => None,
+    }
+}
+
 #[derive(Debug, Clone, PartialEq, Eq)]
 pub enum MapEv {
     Update(i32, i32),
@@ -350,7 +371,7 @@ impl Throttle {
 struct ConsumerReader {
     id: u32,
     map: bool,
-    mdec_body: swimos_agent_protocol::encoding::map::MapMessageDecoder<i32, i32>,
+    mdec_body: swimos_agent_protocol::encoding::map::MapMessageDecoder<swimos_model::Value, i32>,
     src: Option<Throttle>,
     buf: BytesMut,
     hist: SharedHist,
@@ -412,8 +433,14 @@ impl Future for ConsumerReader {
                             if this.map {
                                 let text = format!("{:?}", body.as_ref());
                                 match this.mdec_body.decode_eof(&mut body) {
-                                    Ok(Some(MapMessage::Update { key, value })) => Note::Map(MapEv::Update(key, value)),
-                                    Ok(Some(MapMessage::Remove { key })) => Note::Map(MapEv::Remove(key)),
+                                    Ok(Some(MapMessage::Update { key, value })) => match key_of_value(&key) {
+                                        Some(k) => Note::Map(MapEv::Update(k, value)),
+                                        None => Note::Undecodable(format!("unknown key {key} in {text}")),
+                                    },
+                                    Ok(Some(MapMessage::Remove { key })) => match key_of_value(&key) {
+                                        Some(k) => Note::Map(MapEv::Remove(k)),
+                                        None => Note::Undecodable(format!("unknown key {key} in {text}")),
+                                    },
                                     Ok(Some(MapMessage::Clear)) => Note::Map(MapEv::Clear),
                                     Ok(Some(other)) => Note::Map(MapEv::Other(format!("{:?}", other))),
                                     Ok(None) => Note::Undecodable(format!("incomplete map message {text}")),
@@ -600,7 +627,7 @@ async fn remote_lane(
                 RemoteOp::ExtUpdate { k, v, .. } => {
                     map.insert(k, v);
                     if linked {
-                        let body = format!("@update(key:{k}) {v}");
+                        let body = format!("@update(key:{}) {v}", wire_key(k));
                         if send(&mut out, ResponseMessage::event(origin, addr(), body.as_bytes())).await {
                             hist.borrow_mut().emitted.push((now_step(), body, "ext"));
                         }
@@ -608,7 +635,7 @@ async fn remote_lane(
                 }
                 RemoteOp::ExtRemove { k, .. } => {
                     if map.remove(&k).is_some() && linked {
-                        let body = format!("@remove(key:{k})");
+                        let body = format!("@remove(key:{})", wire_key(k));
                         if send(&mut out, ResponseMessage::event(origin, addr(), body.as_bytes())).await {
                             hist.borrow_mut().emitted.push((now_step(), body, "ext"));
                         }
@@ -659,7 +686,7 @@ async fn remote_lane(
                     if sc.lane_has_state {
                         if sc.map {
                             for (k, v) in map.clone().iter() {
-                                let body = format!("@update(key:{k}) {v}");
+                                let body = format!("@update(key:{}) {v}", wire_key(*k));
                                 if send(&mut out, ResponseMessage::event(origin, addr(), body.as_bytes())).await {
                                     hist.borrow_mut().emitted.push((now_step(), body, "sync"));
                                 }
@@ -1030,8 +1057,8 @@ fn check(rec: &Record) -> Vec<Violation> {
                     .filter(|x| x.0 <= qs)
                     .filter_map(|x| match &x.2 {
                         Note::Value(v) => Some(v.to_string()),
-                        Note::Map(MapEv::Update(k, v)) => Some(format!("@update(key:{k}) {v}")),
-                        Note::Map(MapEv::Remove(k)) => Some(format!("@remove(key:{k})")),
+                        Note::Map(MapEv::Update(k, v)) => Some(format!("@update(key:{}) {v}", wire_key(*k))),
+                        Note::Map(MapEv::Remove(k)) => Some(format!("@remove(key:{})", wire_key(*k))),
                         Note::Map(MapEv::Clear) => Some("@clear".to_string()),
                         _ => None,
                     })
